@@ -151,6 +151,8 @@ def run_contract(con, timeout_ms=10000, keep_models=True, verbose=False):
                 try:
                     for t in con.hints(ctx, st, list(ob.extra_terms)):
                         ob.path.append(t == t)          # a tautology: only makes the term visible to instantiation
+                        if z3.is_int(t):
+                            ob.extra_terms.append(t)    # ... and trigger-less hypotheses are instantiated at it
                 except Exception as e:
                     res.undecided.append("hints failed: %r" % (e,))
             try:
